@@ -128,7 +128,11 @@ def make_variant(base, rng, reference=False):
                     classes[pairkey] = NO_EXT  # no recognised extension: falls back to the input format
             e = rng.choice(classes[pairkey])
             c = "" if reference else rng.choice(OUT_CONTAINERS)
-            outs.append([g[0], _stem(g[1]) + e + c])
+            stem = _stem(g[1])
+            if not reference and g[0] == "-o" and e.startswith(".") and "{" not in stem and rng.random() < 0.06:
+                # a file named by its extension alone ('-o ${prefix}.fasta' with an empty prefix)
+                stem = stem.rsplit("/", 1)[0] + "/"
+            outs.append([g[0], stem + e + c])
         else:
             outs.append(g)
     if to_stdout and v["fmt"] == "fastq" and rng.random() < 0.5:
